@@ -157,7 +157,7 @@ def _r1(ctx, m):
     guard_ok = False
     if g[0] == g[1] == g[2] and len(g[0]) == 1:
         gx, pol = g[0][0]
-        b = match(("cmp", (V("op"),), (("sub", ("acc", "jacrhs"), V("i")), V("lit"))), gx)
+        b = match(("cmp", (V("op"),), (("sub", m.JAC, V("i")), V("lit"))), gx)
         if b and ((b["op"] == "NotEq" and pol) or (b["op"] == "Eq" and not pol)) and b["lit"][0] == "const":
             slot_idx = b["i"]
             ctx.stats["csr_sentinel"] = b["lit"][1]
@@ -175,7 +175,7 @@ def _r1(ctx, m):
                   "the column list receives the column loop variable", found=show(simp(c.value))[:80])
         lw = lower(v.value)
         hv = list(lw.holes.values())
-        slot = ("sub", ("acc", "jacrhs"), slot_idx)
+        slot = ("sub", m.JAC, slot_idx)
         ok = len(hv) == 1 and hv[0] in (slot, ("fmt", slot, None, -1)) and lw.text.strip() == next(iter(lw.holes))
         ctx.check(ok, "R1", "vals-value", (FILE, v.line), "the value list receives that same entry, unchanged", found=lw.text)
     # (f) nothing else touches the lists
@@ -471,6 +471,11 @@ MUTANTS = [
     {"name": "nequations-macro", "file": MACROS, "old": "#define NEQUATIONS (NSPECIES + THERMAL)", "new": "#define NEQUATIONS (NSPECIES)", "rules": ["R4"]},
 ]
 BENIGN = [
+    {"name": "arrays-renamed", "edits": [
+        {"file": T, "old": "jacrhs", "new": "jacent", "count": 13},
+        {"file": T, "old": "rhs[", "new": "derivs[", "count": 9},
+        {"file": T, "old": "        rhs = [\"0.0\"] * n_eqns", "new": "        derivs = [\"0.0\"] * n_eqns"},
+        {"file": T, "old": "zip(lhs, rhs)", "new": "zip(lhs, derivs)"}]},
     {"name": "rename-nnz", "edits": [
         {"file": T, "old": "        nnz = 0\n", "new": "        nonzeros = 0\n"},
         {"file": T, "old": "spjacrptr.append(nnz)", "new": "spjacrptr.append(nonzeros)", "count": 2},
